@@ -157,6 +157,22 @@ pub struct Connection {
     server_properties: FieldTable,
 }
 
+#[cfg(amiquip_verif)]
+impl Connection {
+    /// Verification hook: a `Connection` over a caller-supplied I/O-thread stand-in.
+    pub(crate) fn verif_from_parts(
+        join_handle: JoinHandle<Result<()>>,
+        channel0: Channel0Handle,
+        server_properties: FieldTable,
+    ) -> Connection {
+        Connection {
+            join_handle: Some(join_handle),
+            channel0,
+            server_properties,
+        }
+    }
+}
+
 impl Drop for Connection {
     fn drop(&mut self) {
         let _ = self.close_impl();
